@@ -5,9 +5,13 @@ import json
 import os
 import re
 
+import sys
+
 import nv
 
 REPO = "/repo"
+if hasattr(sys, "set_int_max_str_digits"):
+    sys.set_int_max_str_digits(0)      # the harness reports 10^4-digit integers in decimal
 
 
 def run_cases(cases, timeout_ms=5000, jobs=None):
